@@ -126,6 +126,9 @@ type verifCrashCase struct {
 	Clean    bool     `json:"clean"`
 	Size     int64    `json:"size"`
 	Target   int      `json:"target"`
+	// DirRemoved: history "an earlier Write cached the directory in the backend's dirCache, then the
+	// directory (with everything in it) was removed behind the backend's back" precedes the operation
+	DirRemoved bool `json:"dir_removed"`
 
 	Crashed    bool     `json:"crashed"`
 	Passed     []string `json:"passed"`
@@ -379,6 +382,15 @@ func runCrashCase(t *testing.T, c *verifCrashCase) {
 	}
 	if c.OldPart != nil {
 		if err := os.WriteFile(final+".part", unhex(t, *c.OldPart), 0o600); err != nil {
+			t.Fatal(err)
+		}
+	}
+	if c.DirRemoved {
+		verifTarget, verifChunks = 0, nil
+		if err := b.Write(context.Background(), "d/warm", []byte("x")); err != nil {
+			t.Fatal(err)
+		}
+		if err := os.RemoveAll(dir); err != nil {
 			t.Fatal(err)
 		}
 	}
